@@ -15,7 +15,18 @@ def run(tier, replay=None):
     grid = C.run_tlc("MC_TimeTrigger", "MC_TimeTrigger_gridq.cfg" if tier == "quick" else "MC_TimeTrigger_gridt.cfg",
                      "c16_grid", workers=8, timeout=1800, coverage=False)
     hist = C.run_tlc("MC_TimeTrigger", "MC_TimeTrigger_hist.cfg", "c16_hist", workers=8, timeout=1800, coverage=False)
-    for r in (grid, hist):
+    # long lifetimes of one trigger (300 arrivals), sampled by TLC's simulation mode
+    deep = C.run_tlc("MC_TimeTrigger", "MC_TimeTrigger_deep.cfg", "c16_deep", workers=1, timeout=1800, coverage=False,
+                     simulate=20 if tier == "quick" else 200, depth=400)
+    # (the emitting invariant is evaluated more than once per end state in simulation mode)
+    seen, uniq = set(), []
+    for c in deep.replays:
+        k = json.dumps(c, sort_keys=True)
+        if k not in seen:
+            seen.add(k)
+            uniq.append(c)
+    deep.replays = uniq
+    for r in (grid, hist, deep):
         if r.inv_violated:
             run.mismatch({"kind": "model", "invariant": r.inv_violated}, {"tlc": r.error_text[:4000]})
             return run.finish()
@@ -23,7 +34,8 @@ def run(tier, replay=None):
     wd = C.workdir("c16")
     gp, hp = os.path.join(wd, "grid.ndjson"), os.path.join(wd, "all.ndjson")
     C.write_ndjson(gp, grid.replays)
-    C.write_ndjson(hp, grid.replays + hist.replays)
+    C.write_ndjson(hp, grid.replays + hist.replays + deep.replays)
+    run.extra["simulated_long_histories"] = len(deep.replays)
     weak = skipped = 0
     zones = [(z, "fixed") for z in FIXED] + [(z, "dst") for z in (DST if tier == "thorough" else DST[:4])]
     for zone, kind in zones:
@@ -44,7 +56,7 @@ def run(tier, replay=None):
     if not run.mismatches and (weak == 0 or skipped == 0):
         raise C.ToolError("vacuous run: no instant fell into a DST transition (weak=%d, skipped=%d)" % (weak, skipped))
     run.samples = grid.replays[1000:1002] + hist.replays[2000:2001]
-    run.extra = {"instants_in_offset_change_windows": weak, "nonexistent_local_times_skipped": skipped, "zones": [z for z, _ in zones]}
+    run.extra.update({"instants_in_offset_change_windows": weak, "nonexistent_local_times_skipped": skipped, "zones": [z for z, _ in zones]})
     run.rule = ("schedule function: a grid of local instants (every month of 2024 x days 1,2,15,28-31 x 8 seconds of day "
                 "around hour / day edges, the hours around the 2024 DST transitions of the zones used, year ends, leap "
                 "days, ISO-week year edges) x 7 units x n in {1,2,3,5,7,12,24} x modulate, evaluated in 3 fixed-offset "
